@@ -465,6 +465,218 @@ pub fn ep_frozen_family(rng: &mut Rng, shard: u64, nshards: u64, stride: u64, ou
     }
 }
 
+/// Geometry-exhaustive check / pin family: for EVERY aligned (king, enemy slider) pair of squares
+///  (a) the slider gives check and an own knight or rook can interpose on one of the between squares
+///      (each between square in turn) or capture the checker,
+///  (b) an own slider stands on each between square in turn, pinned: it may move along the line and
+///      capture the pinner, and nothing else.
+/// A single wrong entry of a between / line table, or a slip in the evasion / pin masks that depends
+/// on one particular geometry, shows up here.
+pub fn line_geometry_family(shard: u64, nshards: u64, stride: u64, out: &mut Vec<Crafted>) {
+    let mut idx = 0u64;
+    for me in [Col::W, Col::B] {
+        let opp = me.flip();
+        for k in 0..64u8 {
+            for s in 0..64u8 {
+                if !aligned(k, s) {
+                    continue;
+                }
+                let betw = between_squares(k, s);
+                let diagonal = file_of(k) != file_of(s) && rank_of(k) != rank_of(s);
+                for sk in [if diagonal { Kind::B } else { Kind::R }, Kind::Q] {
+                    for (bi, &b) in betw.iter().enumerate() {
+                        idx += 1;
+                        if idx % nshards != shard || (idx / nshards) % stride != 0 {
+                            continue;
+                        }
+                        // enemy king: any square not adjacent / aligned trouble - first that validates
+                        for variant in 0..3 {
+                            let mut p = Position::empty();
+                            p.turn = me;
+                            p.board[k as usize] = Some((me, Kind::K));
+                            p.board[s as usize] = Some((opp, sk));
+                            match variant {
+                                0 => {
+                                    // (a) interposition by a knight: put it a knight's move away from b
+                                    let mut placed = false;
+                                    for (df, dr) in [(1, 2), (2, 1), (-1, 2), (-2, 1), (1, -2), (2, -1), (-1, -2), (-2, -1)] {
+                                        let (f, r) = (file_of(b) + df, rank_of(b) + dr);
+                                        if on_board(f, r) && p.board[sq(f, r) as usize].is_none() && !betw.contains(&sq(f, r)) {
+                                            p.board[sq(f, r) as usize] = Some((me, Kind::N));
+                                            placed = true;
+                                            break;
+                                        }
+                                    }
+                                    if !placed {
+                                        continue;
+                                    }
+                                }
+                                1 => {
+                                    // (b) own slider pinned on b
+                                    let own = if bi % 2 == 0 { sk } else if diagonal { Kind::B } else { Kind::R };
+                                    p.board[b as usize] = Some((me, own));
+                                }
+                                _ => {
+                                    // (b') own piece that cannot move along the line, pinned on b
+                                    p.board[b as usize] = Some((me, if diagonal { Kind::R } else { Kind::B }));
+                                }
+                            }
+                            let mut ok = false;
+                            for ek in [sq(7, 7), sq(0, 0), sq(7, 0), sq(0, 7), sq(3, 3), sq(4, 5)] {
+                                if p.board[ek as usize].is_some() {
+                                    continue;
+                                }
+                                let mut q = p.clone();
+                                q.board[ek as usize] = Some((opp, Kind::K));
+                                if q.chess_root_ok().is_ok() {
+                                    p = q;
+                                    ok = true;
+                                    break;
+                                }
+                            }
+                            if ok {
+                                out.push(Crafted { family: "line-geometry", pre: p, moves: vec![] });
+                            }
+                        }
+                    }
+                }
+            }
+        }
+    }
+}
+
+/// Two own pieces of the same kind pinned at once along different lines, one of them unable to
+/// move along its pin (rook pinned on a diagonal / bishop on a file), the other mobile - in both
+/// square orders.
+pub fn double_pin_family(rng: &mut Rng, n: usize, out: &mut Vec<Crafted>) {
+    let dirs: [(i32, i32); 8] = [(1, 0), (0, 1), (-1, 0), (0, -1), (1, 1), (-1, 1), (-1, -1), (1, -1)];
+    let mut made = 0;
+    let mut tries = 0;
+    while made < n && tries < n * 80 {
+        tries += 1;
+        let me = if tries % 2 == 0 { Col::W } else { Col::B };
+        let opp = me.flip();
+        let k = rng.below(64) as u8;
+        let kind = *rng.pick(&[Kind::R, Kind::B, Kind::Q, Kind::N]);
+        let d1 = *rng.pick(&dirs);
+        let d2 = *rng.pick(&dirs);
+        if d1 == d2 {
+            continue;
+        }
+        let mut p = Position::empty();
+        p.turn = me;
+        p.board[k as usize] = Some((me, Kind::K));
+        let mut ok = true;
+        for d in [d1, d2] {
+            let a = rng.range(1, 3) as i32;
+            let b = a + rng.range(1, 3) as i32;
+            let (pf, pr) = (file_of(k) + d.0 * a, rank_of(k) + d.1 * a);
+            let (sf, sr) = (file_of(k) + d.0 * b, rank_of(k) + d.1 * b);
+            if !on_board(pf, pr) || !on_board(sf, sr) || p.board[sq(pf, pr) as usize].is_some() || p.board[sq(sf, sr) as usize].is_some() {
+                ok = false;
+                break;
+            }
+            p.board[sq(pf, pr) as usize] = Some((me, kind));
+            let diag = d.0 != 0 && d.1 != 0;
+            p.board[sq(sf, sr) as usize] = Some((opp, if rng.chance(1, 3) { Kind::Q } else if diag { Kind::B } else { Kind::R }));
+        }
+        if !ok {
+            continue;
+        }
+        place_random(&mut p, rng, opp, Kind::K, 0..=7);
+        for _ in 0..rng.range(0, 3) {
+            let c = if rng.chance(1, 2) { me } else { opp };
+            let extra = *rng.pick(&[Kind::P, Kind::N, Kind::B]);
+            place_random(&mut p, rng, c, extra, 1..=6);
+        }
+        if p.chess_root_ok().is_ok() && crate::tags::pinned_pieces(&p).len() >= 2 {
+            made += 1;
+            out.push(Crafted { family: "double-pin", pre: p, moves: vec![] });
+        }
+    }
+}
+
+/// e.p. captures that DISCOVER a check or a pin on the other side: a slider of the capturer's colour
+/// is aligned with the victim's king through the captured pawn (which disappears from a square the
+/// mover neither leaves nor lands on) or through the capturer's own square.  History: pre-position,
+/// the double step, then the e.p. capture.
+pub fn ep_discovery_family(shard: u64, nshards: u64, stride: u64, out: &mut Vec<Crafted>) {
+    let mut idx = 0u64;
+    for victim_col in [Col::B, Col::W] {
+        let me = victim_col.flip();
+        let start_r = victim_col.pawn_start_rank();
+        let land_r = start_r + 2 * victim_col.fwd();
+        let target_r = start_r + victim_col.fwd();
+        for f in 0..8i32 {
+            for side in [-1, 1] {
+                let cf = f + side;
+                if !on_board(cf, land_r) {
+                    continue;
+                }
+                let ds = Mv::new(sq(f, start_r), sq(f, land_r));
+                let epm = Mv::new(sq(cf, land_r), sq(f, target_r));
+                for through in [sq(f, land_r), sq(cf, land_r)] {
+                    for vk in 0..64u8 {
+                        if !aligned(vk, through) {
+                            continue;
+                        }
+                        for ss in 0..64u8 {
+                            if !aligned(vk, ss) || !strictly_between(vk, ss, through) {
+                                continue;
+                            }
+                            idx += 1;
+                            if idx % nshards != shard || (idx / nshards) % stride != 0 {
+                                continue;
+                            }
+                            let diag = file_of(vk) != file_of(ss) && rank_of(vk) != rank_of(ss);
+                            let mut p = Position::empty();
+                            p.turn = victim_col;
+                            p.board[sq(f, start_r) as usize] = Some((victim_col, Kind::P));
+                            p.board[sq(cf, land_r) as usize] = Some((me, Kind::P));
+                            if p.board[vk as usize].is_some() || p.board[ss as usize].is_some() {
+                                continue;
+                            }
+                            p.board[vk as usize] = Some((victim_col, Kind::K));
+                            p.board[ss as usize] = Some((me, if idx % 3 == 0 { Kind::Q } else if diag { Kind::B } else { Kind::R }));
+                            // a victim-side piece that becomes pinned / must answer the check
+                            let mut placed = false;
+                            for mk in [sq(0, me.home_rank()), sq(7, me.home_rank()), sq(4, me.home_rank()), sq(2, (me.home_rank() - 1).abs())] {
+                                if p.board[mk as usize].is_some() {
+                                    continue;
+                                }
+                                let mut q = p.clone();
+                                q.board[mk as usize] = Some((me, Kind::K));
+                                if q.chess_root_ok().is_ok() && q.is_legal(ds) && q.apply(ds).is_legal(epm) {
+                                    p = q;
+                                    placed = true;
+                                    break;
+                                }
+                            }
+                            if !placed {
+                                continue;
+                            }
+                            if idx % 2 == 0 {
+                                // an extra victim-side knight that could (illegally) ignore the check
+                                for ns in [sq(1, 2), sq(6, 5), sq(2, 5), sq(5, 2)] {
+                                    if p.board[ns as usize].is_none() {
+                                        let mut q = p.clone();
+                                        q.board[ns as usize] = Some((victim_col, Kind::N));
+                                        if q.chess_root_ok().is_ok() && q.is_legal(ds) && q.apply(ds).is_legal(epm) {
+                                            p = q;
+                                        }
+                                        break;
+                                    }
+                                }
+                            }
+                            try_push(out, "ep-discovery", p, vec![ds, epm]);
+                        }
+                    }
+                }
+            }
+        }
+    }
+}
+
 /// castling x attackers: rights subsets, one enemy piece of each kind on each square, optional
 /// blocker on a path square, both colours.
 pub fn castle_family(out: &mut Vec<Crafted>) {
